@@ -222,4 +222,70 @@ theorem recover_any (S : Store) (log : List Eff) (p : Str) (t' : Tok) (hp : chec
   rw [← hw1] at hrun2
   exact ⟨r1, w1, m, w2, hrun1, hres, hrun2, hret⟩
 
+/-- `store_any` with validation arguments: whatever additional algorithm, checksum,
+    checksum algorithm and expected size the recovery store is given, as long as
+    they pass the argument checks and the verdict on the data is "valid" -/
+theorem store_any_args (S : Store) (log : List Eff) (p : Str) (t' : Tok) (add cks ca : SArg) (sz : IArg)
+    (add' cs' : Option Str) (hp : checkStringOk p = true) (hok : OkDigests o)
+    (hint : checkInteger sz = .ok ()) (hac : checkArgAlgorithmsAndChecksum cfg.alg add cks ca = .ok (add', cs'))
+    (hv : (verdict ((refineAlgorithmList defaultAlgos add' cs').map fun a => (a, o.dig a t')) (fun a => o.dig a t')
+      (o.size t') sz (strArg cks) cs').exc = none)
+    (h1 : S.pidRefs.get (o.hId p) = none) (hnl : AllNl S.cidRefs)
+    (hfree : S.objs.get (o.dig cfg.alg t') = none ∨ S.objs.get (o.dig cfg.alg t') = some t') :
+    ∃ m w2, (storeObject cfg o (.str p) (.ok t') add cks ca sz).run (calm S log) = (.ok (.objMeta m), w2) ∧
+      w2.lk = {} ∧ w2.fault = none ∧
+      ((retrieveObject cfg o (.str p)).run w2).1 = .ok (.content t') := by
+  have hcok := hok cfg.alg t'
+  have hne : o.dig cfg.alg t' ≠ [] := ((checkStringOk_iff _).1 hcok).1
+  obtain ⟨st1, log1, hrun1, f1, f2, f3, f4, f5, f6, f7, f8⟩ := mv_run_pid_spec cfg o [p] S log p t' add' cs' (strArg cks) sz
+  rw [hv] at hrun1
+  simp only [calmL] at hrun1
+  have h1' : st1.pidRefs.get (o.hId p) = none := by rw [f1]; exact h1
+  have hnl' : AllNl st1.cidRefs := by rw [f2]; exact hnl
+  obtain ⟨st2, log2, t2, hrun2, k1, k2, k3, k4⟩ := tag_any cfg o [p] st1 log1 p (o.dig cfg.alg t') hp hcok h1' hnl'
+  simp only [calmL] at hrun2
+  have hobj2 : st2.objs.get (o.dig cfg.alg t') = some t' := by
+    rw [k4, f8]
+    rcases hfree with h | h
+    · simp [hv, h]
+    · simp [h]
+  refine ⟨{ cid := o.dig cfg.alg t', size := o.size t',
+            digests := (refineAlgorithmList defaultAlgos add' cs').map fun a => (a, o.dig a t') },
+    calm st2 log2, ?_, rfl, rfl, ?_⟩
+  · rw [storeObject_pid_unfold cfg o (.str p) (.ok t') add cks ca sz (by simp)]
+    simp [runsimp, checkString_of_ok hp, checkArgData, hint, hac, openStream,
+      calm, calmL, Prog.run_bind, Prog.run_bind_pe, hrun1, hrun2]
+  · simp [retrieveObject, findObject, runsimp, checkString_of_ok hp, calm, calmL, k1, k2, k3, hobj2, hne]
+
+theorem recover_any_args (S : Store) (log : List Eff) (p : Str) (t' : Tok) (add cks ca : SArg) (sz : IArg)
+    (add' cs' : Option Str) (hp : checkStringOk p = true) (hok : OkDigests o)
+    (hint : checkInteger sz = .ok ()) (hac : checkArgAlgorithmsAndChecksum cfg.alg add cks ca = .ok (add', cs'))
+    (hv : (verdict ((refineAlgorithmList defaultAlgos add' cs').map fun a => (a, o.dig a t')) (fun a => o.dig a t')
+      (o.size t') sz (strArg cks) cs').exc = none)
+    (hnl : AllNl S.cidRefs)
+    (hfree : S.objs.get (o.dig cfg.alg t') = none ∨ S.objs.get (o.dig cfg.alg t') = some t') :
+    ∃ r1 w1 m w2, (deleteObject cfg o (.str p)).run (calm S log) = (r1, w1) ∧
+      (r1 = .ok .unit ∨ r1 = .error .pidRefsDoesNotExist) ∧
+      (storeObject cfg o (.str p) (.ok t') add cks ca sz).run w1 = (.ok (.objMeta m), w2) ∧
+      ((retrieveObject cfg o (.str p)).run w2).1 = .ok (.content t') := by
+  obtain ⟨r1, w1, hrun1, hres, hlk, hnf, hgone, hnl1, hobjs⟩ := delete_any cfg o S log p hp
+  have hw1 : w1 = calm w1.st w1.log := by
+    obtain ⟨st, lk, fault, log⟩ := w1
+    simp only at hlk hnf
+    subst hlk; subst hnf; rfl
+  have hfree1 : w1.st.objs.get (o.dig cfg.alg t') = none ∨ w1.st.objs.get (o.dig cfg.alg t') = some t' := by
+    cases hx : w1.st.objs.get (o.dig cfg.alg t') with
+    | none => exact Or.inl rfl
+    | some y =>
+      right
+      have := hobjs _ _ hx
+      rcases hfree with h | h
+      · rw [h] at this; cases this
+      · rw [h] at this; exact this.symm ▸ rfl
+  obtain ⟨m, w2, hrun2, _, _, hret⟩ := store_any_args cfg o w1.st w1.log p t' add cks ca sz add' cs' hp hok hint hac hv
+    hgone (hnl1 hnl) hfree1
+  rw [← hw1] at hrun2
+  exact ⟨r1, w1, m, w2, hrun1, hres, hrun2, hret⟩
+
+
 end HS
